@@ -75,6 +75,11 @@ def murmur64b_py(data, seed):
     return (h1 << 32) | h2
 
 
+def ulower(b):
+    """ICU ToLower of a UTF-8 word (root locale) = Python's str.lower for the words used here"""
+    return b.decode("utf-8").lower().encode("utf-8")
+
+
 def fold_py(seed, pieces):
     h = seed
     for p in pieces:
@@ -353,8 +358,39 @@ def main(argv):
                     c.broken.append("correspondence tool vs model: case %s model %s tool %s" % (l[:120], mm, implout))
                     break
     # shard placement: whole-line key (default -f 1-), and a field key where cut semantics are not in question
+    def cutfn(spec):
+        # the documented fold: adjacent/unordered items merge into ranges, one piece per range (fields joined by the delimiter)
+        nums = sorted(set(spec))
+        runs = []
+        for n_ in nums:
+            if runs and n_ - 1 == runs[-1][1]:
+                runs[-1][1] = n_
+            else:
+                runs.append([n_ - 1, n_])
+        def f(l, openlast=False):
+            w = l.split(b" ")
+            return [b" ".join(w[b_:e_]) for b_, e_ in runs if w[b_:e_]]
+        return f
+
+    def cutfn_open(spec, start):
+        base = cutfn(spec + [start])
+        def f(l):
+            w = l.split(b" ")
+            ps = cutfn(spec)(l) if spec else []
+            # the open range start- merges with a preceding adjacent closed item
+            nums = sorted(set(spec))
+            if nums and nums[-1] == start - 1:
+                lo = start - 1
+                while lo - 1 in nums:
+                    lo -= 1
+                return cutfn([x for x in nums if x < lo])(l) + [b" ".join(w[lo - 1:])]
+            return ps + ([b" ".join(w[start - 1:])] if w[start - 1:] else [])
+        return f
     for nsh, fargs, keyfn in ((3, [], lambda l: [l]), (7, [], lambda l: [l]), (4, ["-f", "2", "-d", " "], lambda l: [l.split(b" ")[1]]),
-                              (5, ["-f", "1,3", "-d", " "], lambda l: [l.split(b" ")[0], l.split(b" ")[2]])):
+                              (5, ["-f", "1,3", "-d", " "], lambda l: [l.split(b" ")[0], l.split(b" ")[2]]),
+                              (5, ["-f", "1,2,3", "-d", " "], cutfn([1, 2, 3])), (4, ["-f", "3,1,2", "-d", " "], cutfn([3, 1, 2])),
+                              (6, ["-f", "1,3,4", "-d", " "], cutfn([1, 3, 4])), (3, ["-f", "2,3,4-", "-d", " "], cutfn_open([2, 3], 4)),
+                              (7, ["-f", "1,3,4-", "-d", " "], cutfn_open([1, 3], 4)), (5, ["-f", "4,2,3,1", "-d", " "], cutfn([4, 2, 3, 1]))):
         ls = []
         for _ in range(40 if c.volume == "quick" else 400):
             words = [bytes(rng.choice(b"abcdefxyz\xc3\xa9") for _ in range(rng.randrange(1, 12))) for _ in range(4)]
@@ -442,7 +478,9 @@ def main(argv):
         sents = [[(b"Der", b"The"), (b"haus", b"House"), (b"maus", b"house"), (b"klein", b"little")],
                  [(b"haus", b"house")],
                  [(b"klein", b"House"), (b"haus", b"House"), (b"haus", b"Little")],
-                 [(b"Der", b"House"), (b"klein", b"little"), (b"klein", b"little")]]
+                 [(b"Der", b"House"), (b"klein", b"little"), (b"klein", b"little")],
+                 # lower-casing changes the UTF-8 length: U+0130 (2 bytes -> i + U+0307, 3 bytes), U+212A Kelvin sign (3 -> 1)
+                 [(b"Der", b"The"), (b"stadt", b"\xc4\xb0stanbul"), (b"grad", b"\xe2\x84\xaaelvin"), (b"stadt", b"\xc4\xb0STANBUL"), (b"k", b"\xe2\x84\xaa"), (b"stadt", b"\xc4\xb0stanbul")]]
         al_b, src_b, tgt_b = b"", b"", b""
         expect = {}
         for n_, pairs2 in enumerate(sents):
@@ -451,7 +489,7 @@ def main(argv):
             src_b += s1
             tgt_b += t1
             for s_, t_ in pairs2:
-                k = murmur64a_py(t_.lower(), murmur64a_py(s_, 0))
+                k = murmur64a_py(ulower(t_), murmur64a_py(s_, 0))
                 expect.setdefault(k, {}).setdefault(t_, 0)
                 expect[k][t_] += 1
         fa3, fs3, ft3 = [os.path.join(SCRATCH, n_) for n_ in ("m.align", "m.src", "m.tgt")]
@@ -473,6 +511,24 @@ def main(argv):
                 len(sents), got if got is not None else so[:300], st, expect),
                 {"op": "train_case", "kind": "model", "align": al_b.decode("latin1"), "source": src_b.decode("latin1"), "target": tgt_b.decode("latin1"),
                  "stdout": so[:1500].decode("latin1"), "expected": {str(k): {w.decode(): n2 for w, n2 in v.items()} for k, v in expect.items()}})
+
+        # round trip: apply_case must find what train_case wrote for words whose lower-case form has another length
+        if st == 0 and "apply_case" in tools:
+            fm3, fal3 = os.path.join(SCRATCH, "m.model"), os.path.join(SCRATCH, "m.sym")
+            open(fm3, "wb").write(so)
+            rt = [(b"Der", b"the"), (b"stadt", ulower(b"\xc4\xb0stanbul")), (b"grad", b"kelvin"), (b"k", b"k")]
+            n3 = len(rt) + 1
+            open(fs3, "wb").write(b"<s> " + b" ".join(x for x, _ in rt) + b"\n")
+            open(ft3, "wb").write(b"<t> " + b" ".join(y for _, y in rt) + b"\n")
+            open(fal3, "wb").write(b"0 ||| " + b" ".join(b"%d-%d" % (i, i) for i in range(n3)) + b"\n")
+            st3, so3, se3 = run_tool([repo_bin("apply_case"), fal3, fs3, ft3, fm3], timeout=60)
+            want3 = b"<t> The \xc4\xb0stanbul \xe2\x84\xaaelvin \xe2\x84\xaa\n"
+            c.count(("case-roundtrip-unicode",), bucket="tool/case-roundtrip-length-changing-lowercase")
+            c.cov["traces_validated_against_impl"] += 1
+            if st3 != 0 or so3 != want3:
+                c.violation("tool/case-roundtrip: apply_case did not find train_case's entries for words whose lower-case form has a different UTF-8 length: output %r, expected %r (status %s)" % (so3, want3, st3),
+                            {"op": "train_case|apply_case", "kind": "roundtrip", "train_align": al_b.decode("latin1"), "train_source": src_b.decode("latin1"),
+                             "train_target_hex": hexs(tgt_b), "model": so[:1500].decode("latin1"), "apply_stdout_hex": hexs(so3), "expected_hex": hexs(want3)})
 
     # apply_case on multi-line inputs against a hand-written model: the key looked up for every alignment point of every
     # line is 64A(lower(target word), 64A(source word)) whatever was processed before (consecutive lines whose last /
